@@ -157,9 +157,8 @@ def _first_diff(a, b):
     return f"{len(la)} vs {len(lb)} lines"
 
 
-# integers only: nested conditions are printed through the simplifier, which multiplies constants together, and the
-# product of two 2-decimal constants is no longer representable at the exporter's 2 decimals
-TWO_DECIMALS = ["0", "1", "2", "-1", "3", "10", "100000", "-100000", "7", "-4"]
+# constants representable at the exporter's precision for conditions (2 decimals)
+TWO_DECIMALS = ["0", "1", "2", "-1", "0.5", "3.25", "10", "100000", "-100000.5", "0.25", "7.75"]
 
 
 def generated_tasks(tier, seed):
@@ -218,6 +217,8 @@ def behaviour_tasks(tier, seed):
     k = 120 if tier == "quick" else 1500
     picked = rng.sample(ta, min(k, len(ta))) + rng.sample(tb, min(k, len(tb)))
     for t in picked:
+        t["max_paths"] = 500 if tier == "quick" else 4000
+        t["cap"] = 8 if tier == "quick" else 10
         t["lib_transform"] = "export_reparse"
         t["label"] = "[re-parsed export] " + t["label"]
     return picked
